@@ -2,6 +2,7 @@
 differences between model and implementation concern the property, the model-free monitor."""
 import mon_rns
 import mon_notif
+import mon_mint
 
 BASE_TRUST = [
     "Lean 4.33 kernel; axioms limited to propext, Classical.choice, Quot.sound (audited per theorem with #print axioms)",
@@ -33,7 +34,20 @@ def notif_runs(tier, seed):
     return [{"profile": "notif", "args": ["notif", "-seed", str(seed * 100 + k), "-hist", "12", "-steps", "600"]} for k in range(16)]
 
 
+def mint_runs(tier, seed):
+    if tier == "quick":
+        return [{"profile": "mint", "args": ["mint", "-seed", str(seed * 10 + k), "-hist", "5", "-steps", "220"]} for k in range(2)]
+    return [{"profile": "mint", "args": ["mint", "-seed", str(seed * 100 + k), "-hist", "5", "-steps", "2000"]} for k in range(16)]
+
+
 PROPS = {
+    "C13": {
+        "runs": mint_runs, "replay_runs": replay_runs, "monitor": mon_mint.c13,
+        "diff_relevant": lambda d: d["mod"] == "mint",
+        "trusted_base": BASE_TRUST + ["sdk.Dec arithmetic re-modelled exactly (Canine/Basic/Dec.lean: chopPrecisionAndRound, truncated big.Int.Quo) and exercised by the correspondence",
+                                      "distribution's BeginBlocker only moves fee_collector funds into the distribution module account (observed together as 'stakers')"],
+        "assumptions": ["parameters pass their validators (non-negative) and the three ratios sum to at most 100", "the stipend address is a valid, unblocked account and the mint denom is valid"],
+    },
     "C18": {
         "runs": notif_runs, "replay_runs": replay_runs, "monitor": mon_notif.C18, "stateful": True,
         "diff_relevant": lambda d: d["mod"] == "notif",
